@@ -520,13 +520,56 @@ func ruleC19Atomic(c *Ctx) {
 		return false
 	}
 	if !opens(W) {
+		// the nearest function above the encoder that opens the file (the save may be split into open / write-and-close)
 		for _, fn := range c.SrcFuncs() {
+			if !opens(fn) {
+				continue
+			}
 			for _, in := range instrsOf(fn) {
-				if call, ok := in.(*ssa.Call); ok && call.Call.StaticCallee() == pa.writer && opens(fn) {
+				if call, ok := in.(*ssa.Call); ok && call.Call.StaticCallee() == pa.writer {
 					W = fn
 				}
 			}
 		}
+		if !opens(W) {
+			for _, fn := range c.SrcFuncs() {
+				if opens(fn) && c.M.Reach(fn)[pa.writer] {
+					W = fn
+				}
+			}
+		}
+	}
+	// helpers that close the file they are given on every path to their return
+	var closesAlways func(g *ssa.Function, depth int) bool
+	closesAlways = func(g *ssa.Function, depth int) bool {
+		if g == nil || g.Blocks == nil || depth > 3 || !c.InPkg(g) {
+			return false
+		}
+		closing := func(b *ssa.BasicBlock) bool {
+			for _, in := range b.Instrs {
+				if call, ok := in.(*ssa.Call); ok {
+					if fullCalleeName(call) == "(*os.File).Close" || closesAlways(call.Call.StaticCallee(), depth+1) {
+						return true
+					}
+				}
+			}
+			return false
+		}
+		seen := map[*ssa.BasicBlock]bool{}
+		work := []*ssa.BasicBlock{g.Blocks[0]}
+		for len(work) > 0 {
+			b := work[len(work)-1]
+			work = work[:len(work)-1]
+			if seen[b] || closing(b) {
+				continue
+			}
+			seen[b] = true
+			if _, isRet := b.Instrs[len(b.Instrs)-1].(*ssa.Return); isRet {
+				return false
+			}
+			work = append(work, b.Succs...)
+		}
+		return true
 	}
 	var create, rename *ssa.Call
 	var closes []*ssa.Call
@@ -539,6 +582,10 @@ func ruleC19Atomic(c *Ctx) {
 				rename = call
 			case "(*os.File).Close":
 				closes = append(closes, call)
+			default:
+				if closesAlways(call.Call.StaticCallee(), 0) {
+					closes = append(closes, call)
+				}
 			}
 		}
 	}
